@@ -89,12 +89,14 @@ def tokens(b):
 
 ALL_KINDS = ["bitflip", "del_tok", "dup_tok", "swap_tok", "ins_tok", "unbalance", "unterminated",
              "highbyte", "nul", "longline", "deep", "directive", "truncate", "random", "escape"]
-# Kinds that almost always stop in the scanner / lineariser / parser, i.e. inside the part of the
-# front end whose totality is modelled (Diag/Linear): these follow VERIF_SEED.  The other kinds
+# Kinds that stop in the scanner / lineariser / parser, i.e. inside the part of the front end whose
+# totality is modelled (Diag/Linear): these follow VERIF_SEED.  (A 60000-case campaign showed that even
+# byte-level kinds such as highbyte/nul/escape on corpus sources reach type inference often enough to
+# hit unrecorded fault sites; they are therefore part of the fixed stream only.)  The other kinds
 # produce parseable ill-typed programs and reach scope binding / type inference, where the unchanged
 # tree faults at many recorded sites (known_findings.json): they come from a fixed stream so that
 # every run explores the same recorded region, and new fault sites show up as new signatures.
-SEEDED_KINDS = ["highbyte", "nul", "random", "escape", "unterminated", "directive"]
+SEEDED_KINDS = ["random", "unterminated"]
 
 
 def mutate(rnd, src, kinds=ALL_KINDS):
@@ -193,7 +195,9 @@ def classify(rc, text):
         return "hang"
     if rc < 0 or rc in (134, 139) or FAULT_RE.search(text):
         return "fault"
-    has_err = re.search(r"\((Fatal Error|Error)\)", text) is not None
+    # a diagnostic line starts with its position and serial number; the echoed source excerpt may itself
+    # contain the words "(Error)" (the corpus has bug reports quoting compiler messages)
+    has_err = re.search(r"(?m)^(\[L\d+ C\d+\] )?#\d+ \((Fatal Error|Error)\)", text) is not None
     if rc == 0 and has_err:
         return "status0_with_error"
     if rc != 0 and not has_err:
@@ -210,6 +214,9 @@ def signature(exe, d, text):
                          cwd=d, env=C.aldor_env(), timeout=120)
     frames = re.findall(r"^#\d+\s+(?:0x[0-9a-f]+ in )?(\w+) \(", out, re.M)
     frames = [f for f in frames if not f.startswith("__") and f not in ("raise", "abort", "kill")]
+    if frames and len(set(frames[:8])) <= 3 and len(frames) >= 6:
+        # unbounded recursion (stack exhaustion): the top frames are one cycle seen at an arbitrary phase
+        return "segv:recursion:" + "+".join(sorted(set(frames[:8])))
     if not frames:
         m2 = re.search(r"Program fault \(([^)]*)\)", text)
         return "fault:no-frames:" + (m2.group(1) if m2 else "unknown")
@@ -242,6 +249,9 @@ def one_case(exe, d, data):
     os.makedirs(d, exist_ok=True)
     open(d + "/m.as", "wb").write(data)
     rc, out, err = C.run(compile_args(exe) + ["m.as"], cwd=d, env=C.aldor_env(), timeout=TIME_LIMIT)
+    if rc == 124:
+        # a loaded machine is not a hang: only a run that also exceeds a much longer limit counts
+        rc, out, err = C.run(compile_args(exe) + ["m.as"], cwd=d, env=C.aldor_env(), timeout=6 * TIME_LIMIT)
     return rc, (out + err)
 
 
